@@ -266,3 +266,88 @@ func bigRun(prop string) func(*Case) {
 		})
 	}
 }
+
+// ---- C14 at scale: 1100 namespaces, 1100 map entries ----
+
+var (
+	nsBigOnce sync.Once
+	nsBigDoc  *xdoc.Doc
+	nsBigMap  map[string]string
+)
+
+const nsBigFan = 1100
+
+// nsBig: <r> with 1100 children <pI:e pI:a="I" id="I"> in namespace urn:n:I, followed by 20 children
+// <qI:e> bound to the SAME URIs under other prefixes. The map binds xI -> urn:n:I (prefixes the document never
+// uses) and pI -> urn:n:(I+1) (the document's own prefixes, bound differently): matching is by URI only.
+func nsBig() (*xdoc.Doc, map[string]string) {
+	nsBigOnce.Do(func() {
+		d := xdoc.NewDoc()
+		d.HasNS = true
+		r := d.Root.AddElem("", "r", "")
+		uri := func(i int) string { return fmt.Sprintf("urn:n:%d", i) }
+		for i := 1; i <= nsBigFan; i++ {
+			e := r.AddElem(fmt.Sprintf("p%d", i), "e", uri(i))
+			e.AddAttr(fmt.Sprintf("p%d", i), "a", uri(i), fmt.Sprint(i))
+			e.AddAttr("", "id", "", fmt.Sprint(i))
+		}
+		for i := 1; i <= nsBigFan; i += 55 {
+			r.AddElem(fmt.Sprintf("q%d", i), "e", uri(i)).AddAttr("", "twin", "", fmt.Sprint(i))
+		}
+		nsBigDoc = d.Finish()
+		nsBigMap = map[string]string{}
+		for i := 1; i <= nsBigFan; i++ {
+			nsBigMap[fmt.Sprintf("x%d", i)] = uri(i)
+			nsBigMap[fmt.Sprintf("p%d", i)] = uri(i%nsBigFan + 1)
+		}
+	})
+	return nsBigDoc, nsBigMap
+}
+
+func c14BigList() []string {
+	var l []string
+	f := fmt.Sprintf
+	for _, n := range bigNs {
+		if n > nsBigFan-1 {
+			continue
+		}
+		l = append(l, f("/r/x%d:e", n), f("count(/r/x%d:e)", n), f("/r/*/@x%d:a", n), f("//x%d:e/@id", n), f("/r/p%d:e", n), f("/r/p%d:e/@id", n), f("name(/r/x%d:e)", n), f("namespace-uri(/r/*[%d])", n),
+			f("local-name(/r/*[%d]/@*[1])", n), f("name(/r/*[%d]/@x%d:a)", n, n), f("count(//@x%d:a)", n), f("/r/x%d:e | /r/x%d:e", n, n+1), f("/r/*[self::x%d:e]/@id", n), f("count(/r/*[@p%d:a])", n),
+			f("/r/x%d:e[@twin]", n), f("string(/r/x%d:e[last()]/@twin)", n), f("count(/r/x%d:e/following-sibling::x%d:e)", n, n), f("boolean(/r/x%d:e/@x%d:a)", n, n+1))
+	}
+	l = append(l, "count(/r/*)", "count(/r/x1:e | /r/x56:e | /r/x1046:e)", "count(//@id)", "name(/r/*[last()])", "namespace-uri(/r/*[last()])", "count(/r/*[namespace-uri() = 'urn:n:56'])", "count(/r/*[local-name() = 'e'])")
+	return l
+}
+
+func c14Big(c *Case) {
+	d, m := nsBig()
+	src := c14BigList()[c.Index]
+	ast := mustParse(src)
+	rc := xref.NewCtx(d.Root)
+	rc.NS, rc.UseNS = m, true
+	want, oof := xref.SafeEval(ast, rc)
+	if oof != "" {
+		panic("C14 big: reference: " + src + ": " + oof)
+	}
+	det := func() map[string]interface{} {
+		return map[string]interface{}{"doc": "<r> with 1100 children <pI:e pI:a='I' id='I'> in namespace urn:n:I and 20 twins <qI:e twin='I'> in the same namespaces", "expr": src,
+			"map": "1100 entries xI -> urn:n:I and 1100 entries pI -> urn:n:(I mod 1100 + 1)"}
+	}
+	ce, err := safeCompileNS(src, m)
+	if err != nil || ce == nil {
+		dd := det()
+		dd["error"] = fmt.Sprint(err)
+		c.Violation("BOUND-PREFIXES-REJECTED", dd)
+		return
+	}
+	got := c.RunEvaluate(ce, d.Root)
+	if !sameValue(got, want) {
+		dd := det()
+		dd["expected"], dd["observed"] = fmtValue(want), got.String()
+		c.Violation("NAME-TEST-BY-URI", dd)
+		return
+	}
+	c.Count("big:namespaces")
+	c.Nontrivial("nsbig|" + src)
+	c.SampleEvery(37, func() interface{} { return map[string]interface{}{"family": "big", "expr": src, "namespaces": nsBigFan, "map_entries": len(m)} })
+}
